@@ -470,7 +470,7 @@ def run(ctx):
         st.merge(part)
     items = []
     for ver in ('3.0', '2.0'):
-        cat = C.for_version(ver)
+        cat = list(C.for_version(ver)) + EXTRA
         slots = (['cell0', 'gmeta', 'cmeta', 'lelem', 'dval', 'ncell'] if ver == '3.0' else ['cell1', 'gmeta', 'cmeta'])
         if ctx.quick:
             slots = ['cell0', 'gmeta', 'cmeta', 'lelem', 'dval'] if ver == '3.0' else slots[:1]
